@@ -173,6 +173,8 @@ def run(ctx: Ctx):
     _address(ctx, model, mod, E)
     _grouped(ctx, model, mod)
     _dictionary(ctx, model, mod, avp)
+    _rfc6733_types(ctx, model)
+    _float32_nan(ctx, model, mod)
     # no codec function of the AVP module keeps state between calls (the dictionaries live in
     # .dictionary and are the documented registry)
     codec_funcs = [f for f in model.all_funcs() if f.module is mod]
@@ -811,3 +813,70 @@ def _dictionary(ctx: Ctx, model, mod, avp):
         kws = {k.arg: A.dotted(k.value) for k in ctor[0].keywords}
         if [A.dotted(a) for a in ctor[0].args] != [params[0]] or kws.get("vendor_id") != params[1]:
             ctx.fail("Avp.new:dispatch#ctor", nw.loc(), "the new AVP is not constructed with the requested code and vendor")
+
+
+# The AVP table of RFC 6733 section 4.5 (code -> data format), frozen from the RFC text.  It is
+# the reference the statement names ("exactly the RFC 6733 wire form ... type-specific data
+# layout"): the dictionary decides which codec an AVP gets, and a base-protocol AVP declared with
+# another format is encoded with the wrong layout or range.  DiameterIdentity / DiameterURI are
+# OctetString-derived; the library may expose them as bytes or text (same wire form).
+RFC6733_AVP_FORMATS = {
+    1: "UTF8", 25: "OCT", 27: "U32", 33: "OCT", 44: "OCT", 50: "UTF8", 55: "TIME", 85: "U32",
+    257: "ADDR", 258: "U32", 259: "U32", 260: "GRP", 261: "ENUM", 262: "U32", 263: "UTF8",
+    264: "IDENT", 265: "U32", 266: "U32", 267: "U32", 268: "U32", 269: "UTF8", 270: "U32",
+    271: "ENUM", 272: "U32", 273: "ENUM", 274: "ENUM", 276: "U32", 277: "ENUM", 278: "U32",
+    279: "GRP", 280: "IDENT", 281: "UTF8", 282: "IDENT", 283: "IDENT", 284: "GRP", 285: "ENUM",
+    287: "U64", 291: "U32", 292: "URI", 293: "IDENT", 294: "IDENT", 295: "ENUM", 296: "IDENT",
+    297: "GRP", 298: "U32", 299: "U32", 480: "ENUM", 483: "ENUM", 485: "U32",
+}
+_FORMAT_CLASSES = {
+    "U32": {"AvpUnsigned32"}, "U64": {"AvpUnsigned64"}, "ENUM": {"AvpEnumerated", "AvpInteger32"},
+    "UTF8": {"AvpUtf8String"}, "OCT": {"AvpOctetString"}, "IDENT": {"AvpOctetString", "AvpUtf8String"},
+    "URI": {"AvpOctetString", "AvpUtf8String"}, "TIME": {"AvpTime"}, "ADDR": {"AvpAddress"},
+    "GRP": {"AvpGrouped"},
+}
+
+
+def _rfc6733_types(ctx: Ctx, model):
+    ctx.rule("C01-R9", "every AVP of the RFC 6733 section 4.5 table is declared with the RFC's data "
+                       "format in the dictionary", floor=40)
+    dct = extract_dictionary(model)
+    for code, fmt in sorted(RFC6733_AVP_FORMATS.items()):
+        e = dct.get(code, 0)
+        cons = f"dictionary[{code}]:rfc6733-format"
+        ctx.inst(cons, rule="C01-R9")
+        if e is None:
+            ctx.fail(cons, dct.module.relpath, f"the RFC 6733 AVP {code} has no dictionary entry", rule="C01-R9")
+        elif e.type_name not in _FORMAT_CLASSES[fmt]:
+            ctx.fail(cons, e.where(dct.module),
+                     f"{e.name} ({code}) is declared {e.type_name}; RFC 6733 section 4.5 defines it as "
+                     f"{fmt} ({'/'.join(sorted(_FORMAT_CLASSES[fmt]))}): values of the RFC's domain are "
+                     f"rejected or decoded as something else (e.g. 0xffffffff as -1)", rule="C01-R9",
+                     expected=sorted(_FORMAT_CLASSES[fmt]), observed=e.type_name)
+
+
+def _float32_nan(ctx: Ctx, model, mod):
+    """Float32 values travel through struct's "f" format, i.e. through a C float <-> double
+    conversion: every finite value, the infinities, signed zeros and quiet NaNs survive it bit
+    for bit, a signalling NaN is quieted (its top mantissa bit is set) by the conversion itself.
+    The quantifier compares NaNs bitwise, so a codec that does not handle NaNs by bit pattern
+    cannot hold it."""
+    ci = mod.classes.get("AvpFloat32")
+    cons = "AvpFloat32.value:nan-payload"
+    ctx.cur("C01-R5")
+    ctx.inst(cons, rule="C01-R5")
+    if ci is None:
+        return
+    for fn in (ci.methods.get("value"), ci.setters.get("value")):
+        if fn is None:
+            continue
+        src = ast.unparse(fn.node)
+        uses_f = any(isinstance(c, ast.Call) and A.call_name(c) in ("struct.pack", "struct.unpack") and c.args
+                     and isinstance(c.args[0], ast.Constant) and str(c.args[0].value).lstrip("!<>=@") == "f"
+                     for c in ast.walk(fn.node))
+        if uses_f and "isnan" not in src and "0x7f8" not in src.lower():
+            ctx.fail(cons, fn.loc(), "AvpFloat32 converts through struct's 'f' format without treating NaNs "
+                     "by bit pattern: the float<->double conversion quiets signalling NaNs, so the wire "
+                     "value 7fa00000 is re-encoded as 7fe00000 (7f800001 -> 7fc00001) and a double "
+                     "sNaN is packed as a quiet one", rule="C01-R5")
+            return
